@@ -26,7 +26,7 @@ echo "demo with change exit=$P1" | tee -a "$LOG"
 if [ "$P0" = 0 ] && [ "$BUILD" = 0 ] && [ "$TRC" = 0 ] && [ "$P1" != 0 ]; then
   D=/verif/seeded/$NAME; mkdir -p "$D"
   cp _seed/patch.rebased.diff "$D/patch.diff"
-  for f in demo.cpp demo.sh build_demo.sh; do [ -f _seed/$f ] && cp _seed/$f "$D/"; done
+  for f in _seed/*; do b=$(basename "$f"); case "$b" in patch.diff|patch.rebased.diff|meta.json|_demo_build|_cfg|out_with.txt|out_without.txt|detect.json) ;; *) cp -r "$f" "$D/";; esac; done
   [ -f _seed/meta.json ] && cp _seed/meta.json "$D/meta.agent.json"
   python3 - "$D" "$NAME" "$P0" "$TRC" "$P1" <<'PY'
 import json, sys, os, subprocess
